@@ -11,9 +11,33 @@ import (
 
 // vPendingConn sets up a client connection with one request (stream 1) whose
 // buffered body of L bytes is waiting to go out.
+var vC07Out *vWriter
+
+// vSentFrames is what sendPending wrote: the frames recorded by the WriteTo
+// stub under the executor, the frames parsed back from the socket bytes
+// natively.
+func vSentFrames(c *Conn) []vSentFrame {
+	if vSymbolic() {
+		return vSent
+	}
+	_ = c.bw.Flush()
+	var out []vSentFrame
+	b := vC07Out.out
+	for len(b) > 0 {
+		f, used, st := refParseFrame(b, 0)
+		if st != refFrOK {
+			panic("verif: client wrote a malformed frame")
+		}
+		out = append(out, vSentFrame{kind: FrameType(f.typ), stream: f.stream, endStream: f.flags&1 != 0, data: f.frag})
+		b = b[used:]
+	}
+	return out
+}
+
 func vPendingConn(L int, ws, wc int32) (*Conn, *pendingBody, []byte) {
 	c := vNewConn()
-	c.bw = bufio.NewWriterSize(&vWriter{failAt: -1}, 256)
+	vC07Out = &vWriter{failAt: -1}
+	c.bw = bufio.NewWriterSize(vC07Out, 256)
 	req := &fasthttp.Request{}
 	ctx := &Ctx{Request: req, Response: &fasthttp.Response{}, Err: make(chan error, 1)}
 	ctx.conn.Store(c)
@@ -51,7 +75,8 @@ func VerifH_C07_pend() {
 
 	vAssert(err == nil, "C07.pend.no-error")
 	sent, ended := 0, false
-	for _, f := range vSent {
+	frames := vSentFrames(c)
+	for _, f := range frames {
 		vAssert(f.kind == FrameData && f.stream == 1, "C07.pend.data-on-the-stream")
 		vAssert(!ended, "C07.pend.nothing-after-end-stream")
 		n := len(f.data)
@@ -81,7 +106,7 @@ func VerifH_C07_pend() {
 		vAssert(int64(pb.window) == int64(ws)-int64(sent) && len(pb.body) == L-sent, "C07.pend.stream-ledger")
 	}
 	vAssert(int64(c.connWindow) == int64(wc)-int64(sent), "C07.pend.conn-ledger")
-	vCover("C07.pend.split", len(vSent) == 3 && ended)
+	vCover("C07.pend.split", len(frames) == 3 && ended)
 	vCover("C07.pend.blocked", sent == 0 && still)
 	vCover("C07.pend.partial", sent > 0 && still)
 }
